@@ -209,8 +209,9 @@ def main(c):
         designs += [("d2", {"prefix": ["p1"], "src": ["s1", "s2", "o"], "obs": "o", "cls": ["x", "y"], "sendmax": 2, "maxchan": 2}),
                     ("d7", {"prefix": ["p1", "p2"], "src": ["s1", "o"], "obs": "o", "cls": ["x"], "ops": ["filter"], "sendmax": 1, "maxchan": 2}),
                     ("d6", {"prefix": ["p1", "p2"], "src": ["s1", "s2"], "obs": "o", "cls": ["x", "y"], "reject": ["y"], "sendmax": 1, "maxchan": 2}),
-                    ("d3", {"prefix": ["p1", "p2"], "src": ["s1", "s2", "o"], "obs": "o", "cls": ["x"], "sendmax": 2, "maxchan": 2}),
-                    ("d4", {"prefix": ["p1", "p2"], "src": ["s1", "s2"], "obs": "o", "cls": ["x", "y"], "sendmax": 1, "maxchan": 3}),
+                    # (two prefixes x three sources x send-max 2 has more than 50 M states, two prefixes x two sources x two classes
+                    # with three notifications in flight does not finish in 12 min either: d6 is the largest two-prefix design)
+                    ("d3", {"prefix": ["p1", "p2"], "src": ["s1", "o"], "obs": "o", "cls": ["x"], "sendmax": 2, "maxchan": 2}),
                     ("d8", {"prefix": ["p1"], "src": ["s1", "s2", "o"], "obs": "o", "cls": ["x"], "ops": ["filter"], "sendmax": 2, "maxchan": 2}),
                     ("d11b", {"prefix": ["p1"], "src": ["s1", "s2"], "obs": "o", "cls": ["x", "y"], "ops": ["softin"], "sendmax": 2, "maxchan": 2}),
                     ("d12", {"prefix": ["p1"], "src": ["s1", "s2", "o"], "obs": "o", "cls": ["x", "y"], "ops": ["softin"], "scen": "ibgp", "sendmax": 2, "maxchan": 2}),
